@@ -3,7 +3,7 @@ import os, random
 import vlib
 
 ALL_KINDS = ["bool", "int", "i32", "i64", "s32", "s64", "uint", "u32", "u64", "x32", "x64", "flt", "dbl", "str", "byt",
-             "arr", "m1", "m2", "m3", "m4"]
+             "arr", "arr7", "arr15", "arr16", "m1", "m2", "m3", "m4"]
 
 
 def tla_set(xs):
@@ -27,6 +27,7 @@ def generate(ck, prop, tier, seed):
     with open(vec, "w") as sink:
         g1 = vlib.must_hold(vlib.tlc("ProtoCodec", "Gen_ProtoCodec.cfg", workers=8, sink=sink), "generation (1 field)")
         ck.add_mc(g1, "Gen_ProtoCodec(1 field, all kinds)")
+        ck.notes["first_part"] = g1.vectors
         g2 = vlib.must_hold(vlib.tlc("ProtoCodec", "Gen_ProtoCodec.cfg", workers=vlib.NCPU, sink=sink, tag="ProtoCodec-gen2",
                                      defines={"MaxFields": 3 if thorough else 2, "GenKinds": tla_set(sub), "MaxId": 1,
                                               "TagNumbers": "{0, 16}"}, timeout=3000),
@@ -41,6 +42,9 @@ def generate(ck, prop, tier, seed):
 def run(prop, tier, seed, rule, assumptions, shards=4, isolate=False, vlimit_kb=None, timeout=3000):
     ck = vlib.Check(prop, tier, seed)
     vec = generate(ck, prop, tier, seed)
+    kept, total = vlib.cap_vectors(vec, 400000 if tier == "thorough" else 40000, seed, keep_first=ck.notes.get("first_part", 0))
+    ck.notes["vectors_generated"], ck.notes["vectors_replayed"] = total, kept
+    ck.exhaustive_replay = kept == total
     ck.binary = vlib.build_harness()
     rr = vlib.run_harness(ck.binary, prop, vec, seed=seed, tier=tier, shards=shards, timeout=timeout,
                           isolate=isolate, vlimit_kb=vlimit_kb)
@@ -50,7 +54,7 @@ def run(prop, tier, seed, rule, assumptions, shards=4, isolate=False, vlimit_kb=
         ck.violations.append(({"t": "div", "prop": prop, "api": "process", "want": "no fatal error",
                                "got": "fatal: " + cr["stderr"][:300], "case": {"vector_index": cr["index"]}}, 1))
     ck.triage(rr.divs, vlimit_kb=vlimit_kb)
-    ck.exhaustive = True
+    ck.exhaustive = getattr(ck, "exhaustive_replay", True)
     ck.rule = rule
     ck.assumptions = assumptions
     return ck.finish()
